@@ -83,6 +83,9 @@ def check(run):
                 "non-trivial = at least one match; distinct = distinct (program, stream)")
     run.trusted += ["Coq 8.16.1 kernel + vm_compute", "hand-written model coq/theories/Sase/Model.v (tied by differential run)",
                     "harness/crates/sase, checks/sase_common.py (generator, earliest-continuation reference)"]
+    run.assumptions += ["hypotheses of C02_engine_is_per_start_greedy / C02_exact_outside_known_class: two or more steps, no `all` step, "
+                        "stream no longer than the run limit (so no run is dropped or evicted); outside the class known_c02 for the text reference",
+                        "processing-time semantics, no .within (cleanup_timeouts does not fire inside a case)"]
     binpath = S.build(run, "C02.v")
     if binpath is None:
         return
